@@ -127,8 +127,10 @@ func (g *fgen) callInner(in ssa.CallInstruction, st *state) []val {
 	}()
 	if callee == nil {
 		// dynamic call through a function value
-		g.havocAll(st)
-		g.assum["dynamic call through function value (havoc all) in "+g.key] = true
+		// every real heap cell may change; the ghost ledgers (locks held, sink/store
+		// ledgers) are assumed untouched by the callback - listed as an assumption
+		g.havocHeap(st)
+		g.assum["dynamic call through a function value in "+g.key+": heap havocked, ghost ledgers assumed unchanged by the callback"] = true
 		return g.freshResults(c.Signature(), "dyn", st)
 	}
 	fc := g.w.contractFor(callee)
